@@ -19,7 +19,7 @@ esac
 exec 9>"$B/.lock"
 flock 9
 if [ ! -f "$B/build.ninja" ] || [ "$ROOT/harness/CMakeLists.txt" -nt "$B/build.ninja" ]; then
-  cmake -G Ninja -S "$ROOT/harness" -B "$B" -DCMAKE_BUILD_TYPE=Verif \
+  cmake -G Ninja -S "$ROOT/harness" -B "$B" -DCMAKE_BUILD_TYPE=Verif -DDRACO_REPO="${VERIF_REPO:-/repo}" \
     -DCMAKE_CXX_COMPILER=$CXX -DCMAKE_C_COMPILER=$CC \
     -DCMAKE_CXX_FLAGS="$FLAGS" -DCMAKE_CXX_FLAGS_VERIF="" -DCMAKE_C_FLAGS_VERIF="" \
     -DCMAKE_EXE_LINKER_FLAGS="-rdynamic" -DCMAKE_CXX_STANDARD=17 > "$B/cmake.log" 2>&1 || { cat "$B/cmake.log" >&2; exit 2; }
